@@ -12,13 +12,16 @@ import (
 // evalInclude processes a <template include="..."> tag with the given vars map.
 // Handles stack push/pop properly using defer to ensure cleanup even on error.
 func (v *Vue) evalInclude(ctx VueContext, node *html.Node, vars map[string]any, depth int) ([]*html.Node, error) {
+	// Slot content supplied by this include tag belongs to this component
+	// instance only and is evaluated later in the includer's scope.
+	includerScope, includerDepth := ctx.SlotScope, len(ctx.stack.stack)
+	ctx.SlotScope = extractSlotContent(node)
+	for _, content := range ctx.SlotScope.Slots {
+		content.scope, content.depth = includerScope, includerDepth
+	}
+
 	ctx.stack.Push(vars)
 	defer ctx.stack.Pop()
-
-	// Extract slot content from the component tag if not already processed
-	if ctx.SlotScope == nil {
-		ctx.SlotScope = extractSlotContent(node)
-	}
 
 	// Merge inherited slots from parent template (passed via __slotScope__ in data)
 	if inheritedSlotScopeData, ok := ctx.stack.EnvMap()["__slotScope__"]; ok {
